@@ -101,6 +101,7 @@ class MySQLQueryBuilder(QueryBuilder):
         newone = super().__copy__()
         newone._duplicate_updates = copy(self._duplicate_updates)
         newone._ignore_duplicates = copy(self._ignore_duplicates)
+        newone._modifiers = copy(self._modifiers)
         return newone
 
     @builder
